@@ -103,6 +103,12 @@ class Replayer:
                 s.rollback()
             elif c == 'lib_query':
                 s.query(Genome).count()
+            elif c == 'lib_bulk_update':
+                t = s.query(Taxon).first()
+                s.query(Taxon).filter(Taxon.id == t.id).update({'name': 'renamed in bulk'}, synchronize_session=False)
+            elif c == 'lib_execute_update':
+                from sqlalchemy import update as _upd
+                s.execute(_upd(Genome).values(description='overwritten by a statement'))
             elif c == 'lib_tree_walk':
                 gset = self.dbobj.genomeset
                 for root in gset.root_taxa():
@@ -131,7 +137,11 @@ class Replayer:
         for j, st in enumerate(hist):
             outcome, detail = self.step(st['cmd'])
             snap = snapshot(self.db)
-            ob = dict(step=j, cmd=st['cmd'], outcome=outcome, detail=detail, unchanged=(snap == self.base0), listing=sorted(snap), pending=self.pending())
+            journal = [n for n in snap if n.endswith('-journal')]
+            for n in journal:
+                snap.pop(n)                    # SQLite's rollback journal: judged by its own clause
+            ob = dict(step=j, cmd=st['cmd'], outcome=outcome, detail=detail, unchanged=(snap == self.base0), listing=sorted(snap), pending=self.pending(),
+                      journal=bool(journal))
             problems = []
             if not ob['unchanged']:
                 changed = [n for n in set(snap) | set(self.base0) if snap.get(n) != self.base0.get(n)]
@@ -189,6 +199,8 @@ def run(ctx):
     ctx.mc('DbWorld', 'MC_DbWorld.cfg', expect='NeverEmits', overrides=dict(SessionClass='"flush-unless-new-or-dirty"'),
            note='negative control: a flush guard that forgets pending deletions')
     ctx.mc('DbWorld', 'MC_DbWorld.cfg', expect='Immutable', overrides=dict(H5Mode='"r+"'), note='negative control: signature file opened for update')
+    ctx.mc('DbWorld', 'MC_DbWorld.cfg', expect='Immutable', overrides=dict(SessionClass='"readonly-autocommit"'),
+           note='negative control: a connection in autocommit mode lets statement-level writes through although flush and commit are blocked')
     num = 24 if not big else 200
     res = tlc.run_tlc('DbWorld', 'Gen_DbWorld.cfg', workers=1, timeout=1500, extra=['-simulate', f'num={num}', '-depth', '9', '-seed', str(ctx.seed % 100000)])
     hists = list({core.canon(h): h for h in res.printed if isinstance(h, list) and h and isinstance(h[0], dict) and 'cmd' in h[0]}.values())
@@ -197,6 +209,8 @@ def run(ctx):
             ['lib_other_rw_reader', 'lib_load', 'lib_edit', 'lib_flush', 'lib_commit', 'lib_query', 'lib_close'],
             ['lib_other_ro_reader', 'lib_other_rw_reader', 'lib_load', 'lib_delete', 'lib_flush', 'lib_begin_block', 'lib_close', 'lib_load', 'lib_add', 'lib_commit'],
             ['lib_load', 'lib_delete', 'lib_flush', 'lib_begin_block', 'lib_query', 'lib_close'],
+            ['lib_load', 'lib_query', 'lib_bulk_update', 'lib_commit', 'lib_flush', 'lib_close', 'cli_query'],
+            ['lib_load', 'lib_execute_update', 'lib_begin_block', 'cli_query', 'lib_rollback', 'lib_bulk_update', 'lib_close', 'lib_load', 'lib_query', 'lib_close'],
             ['lib_load', 'lib_edit', 'lib_flush', 'lib_commit', 'lib_query', 'lib_rollback', 'lib_read_sigs', 'lib_close'],
             ['lib_load', 'lib_add', 'lib_query', 'lib_commit', 'lib_begin_block', 'lib_close', 'cli_query'],
             ['lib_load', 'lib_delete', 'lib_query', 'lib_begin_block', 'lib_close', 'cli_siginfo_db'],
@@ -222,7 +236,7 @@ def run(ctx):
         with ThreadPoolExecutor(10) as ex:
             all_obs = list(ex.map(one, jobs))
         nsteps = sum(len(o) for o in all_obs)
-        recs = [dict(db=env['name'], steps=[dict(cmd=o['cmd'], outcome=o['outcome'], pending=o['pending'], unchanged=o['unchanged']) for o in obs])
+        recs = [dict(db=env['name'], steps=[dict(cmd=o['cmd'], outcome=o['outcome'], pending=o['pending'], unchanged=o['unchanged'], journal=o['journal']) for o in obs])
                 for (i, h, env), obs in zip(jobs, all_obs)]
         n_j, bad = tlc.judge('Judge_C18', recs)
         for i, why in bad:
